@@ -127,9 +127,9 @@ def observed (l : Line) : String :=
 def step (fs : FullSt) (l : Line) : FullSt × String :=
   let (mon', v) := monStep fs.mon l
   if str l "op" == "reset" then
-    -- a request-derived issuer: the reference storage keeps the tenants apart (refstore MultiTenant)
+    -- a request-derived issuer: the reference storage keeps the tenants apart (refstore MultiTenant) - unless it is the flat flavour
     let fs' : FullSt :=
-      { mon := mon', mod := { st := { partitioned := str l "issmode" != "static" }, expiryByClaim := bool l "byclaim" },
+      { mon := mon', mod := { st := { partitioned := str l "issmode" != "static" && !bool l "flat" }, expiryByClaim := bool l "byclaim" },
         -- a provider signing with a non-default algorithm was given `WithSupportedAccessTokenSigningAlgorithms(alg)` (and the same for hints)
         atp := { accessTokenKeySet := parseKeySet l "ks.", accessTokenVerifierOpts := if str l "sigalg" == "RS256" || str l "sigalg" == "" then [] else [str l "sigalg"] },
         clients := Drv.Flow.parseClients l,
